@@ -107,9 +107,36 @@ class Out:
         self.stats[name] = self.stats.get(name, 0) + 1
 
 
-def emits(lab: Lab, index: dict) -> list:
-    """(seq, time, source position, kind, value) of the first subscription of every source, in observed order."""
-    return [(e[0], e[1], index[e[3]], e[5], e[6]) for e in lab.ev if e[2] == "emit" and e[3] in index and e[4] == 0]
+def emits(lab: Lab, index: dict, sid: int = 0) -> list:
+    """(seq, time, source position, kind, value) of the sid-th subscription of every source, in observed order."""
+    return [(e[0], e[1], index[e[3]], e[5], e[6]) for e in lab.ev if e[2] == "emit" and e[3] in index and e[4] == sid]
+
+
+def resubscription_case(case: dict, res: UnitResult, seed: int, idx: int) -> None:
+    """The combinator observable is built ONCE and subscribed a second time after every source timeline is over:
+    the pairing rules must hold for the second subscriber on its own (no buffered element, flag or choice may be
+    left over from the first subscription)."""
+    lab = new_lab()
+    L = [build_source(lab, s) for s in case["srcs"]]
+    last = max([SUB_AT] + [(m[0] if s["kind"] == "hot" else SUB_AT + m[0]) for s in case["srcs"] for m in s["tl"]])
+    t2 = last + 40.0
+    first, second = lab.observer("first", inner=False), lab.observer("second", inner=False)
+    holder: dict = {}
+
+    def sub1() -> None:
+        holder["o"] = build(case, L)
+        first.subscribe_to(holder["o"])
+    lab.at(SUB_AT, sub1)
+    lab.at(t2, lambda: second.subscribe_to(holder["o"]))
+    lab.run()
+    index = {s["name"]: i for i, s in enumerate(case["srcs"])}
+    out2 = MODELS[case["op"]](emits(lab, index, 1), len(L))
+    res.count("second_subscriptions_checked")
+    why = judge(out2, second, lab)
+    if why is not None:
+        res.violation("C13:%s:second-subscription" % case["op"], {"why": why, "case": describe(case), "expected": show_timed(out2.items),
+                                                                  "observed": show_timed(second.timed()), "trace": show_trace(lab)},
+                      {"seed": seed, "idx": idx})
 
 
 def model_zip(evs: list, n: int) -> Out:
@@ -363,6 +390,8 @@ def run_case(seed: int, idx: int, res: UnitResult) -> None:
         res.count("obs:exception_escaped_into_a_source")
     if getattr(lab, "over_budget", False):
         problems.append(("budget", "more than the action budget of scheduler actions"))
+    if not problems and case["scheduler_arg"] and r.random() < 0.35:
+        resubscription_case(case, res, seed, idx)
     if problems:
         res.violation("C13:%s:%s" % (case["op"], problems[0][0]),
                       {"problems": [p[1] for p in problems[:4]], "case": desc, "expected": show_timed(out.items),
